@@ -516,6 +516,108 @@ def phase_strings(exe, rep, tier):
     rep.samples.append({"phase": "strings", "tz": TZ_STRINGS[0]})
 
 
+# ------------------------------------------------------------------------------------------ TZ string grid
+MDAYS = (31, 28, 31, 30, 31, 30, 31, 31, 30, 31, 30, 31)
+GRID_Y0, GRID_Y1 = 2000, 2401          # one whole 400-year cycle plus one year
+
+
+def m_rule_midnights(m, w, d):
+    """epoch seconds of 00:00 (as if UTC) of 'M m.w.d' in every year of the grid window (plain calendar arithmetic)"""
+    out = []
+    for y in range(GRID_Y0, GRID_Y1 + 1):
+        first = (datetime.date(y, m, 1).weekday() + 1) % 7          # 0 = Sunday
+        day = 1 + (d - first) % 7 + 7 * (w - 1)
+        mdays = MDAYS[m - 1] + (1 if m == 2 and (y % 4 == 0 and (y % 100 != 0 or y % 400 == 0)) else 0)
+        if day > mdays:
+            day -= 7
+        out.append((datetime.date(y, m, day).toordinal() - 719163) * 86400)
+    return out
+
+
+def grid_order_never_flips(S, E):
+    """C11's acceptance criterion evaluated over the whole cycle: none of S(y)-E(y), E(y)-S(y+1), S(y)-E(y+1) takes both signs"""
+    for f in (lambda k: S[k] - E[k], lambda k: E[k] - S[k + 1], lambda k: S[k] - E[k + 1]):
+        neg = pos = False
+        for k in range(len(S) - 1):
+            v = f(k)
+            if v < 0:
+                neg = True
+            elif v > 0:
+                pos = True
+        if neg and pos:
+            return False
+    return True
+
+
+def phase_string_grid(exe, rep, tier):
+    """every pair of Mm.w.d notations (quick: same or adjacent months) in TZ strings with default and with day-apart offsets and
+    times: a string tz-rs refuses must be refused by C11's criterion (evaluated here independently over a whole 400-year cycle);
+    a string it accepts is compared with glibc 1 s before and at each of its transitions in a common and in a leap year"""
+    nots = [(m, w, d) for m in range(1, 13) for w in range(1, 6) for d in range(7)]
+    mid = {n: m_rule_midnights(*n) for n in nots}
+    # (text before the rules, start time text, end time text, std offset east, dst offset east, start time s, end time s)
+    variants = [("AAA-1BBB", "", "", 3600, 7200, 7200, 7200),
+                ("AAA-12BBB12", "/0", "/24:30", 43200, -43200, 0, 88200),
+                ("AAA12BBB-12", "/24", "/0", -43200, 43200, 86400, 0)]
+    if tier == "thorough":
+        variants += [("AAA0BBB-0:30", "/12", "/12", 0, 1800, 43200, 43200), ("AAA-23BBB-24", "/1:30", "/23", 82800, 86400, 5400, 82800)]
+    years = (2023, 2024)
+    idx = [y - GRID_Y0 for y in years]
+    strings = []
+    for a in nots:
+        for b in nots:
+            dm = (a[0] - b[0]) % 12
+            if tier != "thorough" and dm not in (0, 1, 11):
+                continue
+            for v in variants:
+                strings.append((a, b, v))
+    req, plan = [], []
+    for a, b, v in strings:
+        text = "%s,M%d.%d.%d%s,M%d.%d.%d%s" % ((v[0],) + a + (v[1],) + b + (v[2],))
+        S = [x + v[5] - v[3] for x in mid[a]]
+        E = [x + v[6] - v[4] for x in mid[b]]
+        req.append("S " + text)
+        pts = []
+        for k in idx:
+            pts += [S[k] - 1, S[k], E[k] - 1, E[k]]
+        for t in pts:
+            req.append("T %d" % t)
+        plan.append((text, S, E, pts))
+    res = tzmc_dump(exe, req)
+    i = 0
+    for text, S, E, pts in plan:
+        head = res[i]
+        lines = res[i + 1:i + 1 + len(pts)]
+        i += 1 + len(pts)
+        rep.add("tz_string_grid_strings")
+        if not head.startswith("OK"):
+            if grid_order_never_flips(S, E):
+                rep.violation({"kind": "string_grid", "tz": text}, "accepted: the order of its transitions never flips in 400 years and glibc answers for it", head)
+            else:
+                rep.add("tz_string_grid_refused_inconsistent")
+            continue
+        if any(S[k] == E[k] or E[k] == S[k + 1] or S[k] == E[k + 1] for k in range(len(S) - 1)):
+            # written exclusion: start and end fall on the same instant in some year; POSIX gives such a rule no meaning and
+            # glibc and tz-rs resolve it differently (C04's model pins tz-rs's reading)
+            rep.exclude("tz_string_grid_rule_with_coinciding_start_and_end")
+            continue
+        glibc_select(text, is_file=False)
+        for t, line in zip(pts, lines):
+            y = utc_fields(t).year
+            if min(abs(t - NY[y]), abs(t - NY[y + 1])) < 2 * 86400:
+                rep.exclude("tz_string_instant_within_2_days_of_new_year(glibc evaluates rules per calendar year)")
+                continue
+            got, err = parse_T(line)
+            rep.add("tz_string_grid_instants")
+            if got is None:
+                rep.violation({"kind": "string", "tz": text, "t": t}, "a local time type", err)
+                continue
+            go, gn, gd = glibc_lookup(t)
+            if (go, gn, 1 if gd > 0 else 0) != got:
+                rep.violation({"kind": "string", "tz": text, "t": t, "reference": "glibc"}, {"offset": go, "abbr": gn, "isdst": gd}, {"offset": got[0], "abbr": got[1], "isdst": got[2]})
+    rep.samples.append({"phase": "string_grid", "tz": plan[len(plan) // 3][0]})
+
+
 def replay(exe, path):
     """re-run one recorded disagreement twice: tz-rs answer vs both references"""
     v = json.load(open(path))
@@ -582,6 +684,11 @@ def replay(exe, path):
             got, _ = parse_T(r[1]) if r[0].startswith("OK") else (None, None)
             if got is None or got != (gl[0], gl[1], 1 if gl[2] > 0 else 0):
                 bad = True
+        elif c["kind"] == "string_grid":
+            r = tzmc_dump(exe, ["S " + c["tz"]])
+            print("tz-rs:", r, "| expected: accepted (glibc accepts it and the order of its transitions never flips)")
+            if not r[0].startswith("OK"):
+                bad = True
     print("REPLAY: violation reproduced" if bad else "REPLAY: case passes")
     return 1 if bad else 0
 
@@ -613,6 +720,7 @@ def main():
     phase_mktime(exe, rep, (fat_posix_d if tier == "thorough" else fat_posix_d[::5]), tier)
     phase_mktime(exe, rep, (slim_ok if tier == "thorough" else slim_ok[::7]), tier)
     phase_strings(exe, rep, tier)
+    phase_string_grid(exe, rep, tier)
     os.makedirs(replay_dir, exist_ok=True)
     total = sum(v for k, v in rep.counts.items() if k.endswith("_instants") or k.endswith("_searches"))
     nontrivial = rep.counts.get("mktime_nontrivial", 0) + rep.counts.get("right_tree_instants", 0)
@@ -620,7 +728,7 @@ def main():
         "property_id": "C10", "tier": tier, "seed": int(os.environ.get("VERIF_SEED", "0") or 0), "level": "exploration", "engine": "py/e2e.py + tzmc dump",
         "coverage": {
             "evaluations": total, "distinct_nontrivial": nontrivial,
-            "rule": "every distinct TZif file of the vendored corpus (fat posix tree, slim tree, right/ tree) x {every transition -1/0/+1, footer-rule transitions -1/0/+1 (2038..2137; thorough ..2437), calendar grid 1900..2500 (quarterly; monthly for every 6th file / thorough)} against zoneinfo (offset, abbreviation) and glibc (offset, abbreviation, isdst); right/ files against glibc through an independent leap-table mapping; local times around transitions since 1970: tz-rs valid instants == inverse image under each reference; well-formed POSIX TZ strings vs glibc TZ parser. non-trivial = searches with 0 or >=2 valid instants + leap-second (right/) instants",
+            "rule": "every distinct TZif file of the vendored corpus (fat posix tree, slim tree, right/ tree) x {every transition -1/0/+1, footer-rule transitions -1/0/+1 (2038..2137; thorough ..2437), calendar grid 1900..2500 (quarterly; monthly for every 6th file / thorough)} against zoneinfo (offset, abbreviation) and glibc (offset, abbreviation, isdst); right/ files against glibc through an independent leap-table mapping; local times around transitions since 1970: tz-rs valid instants == inverse image under each reference; well-formed POSIX TZ strings vs glibc TZ parser, incl. the grid of all pairs of Mm.w.d notations (quick: same or adjacent months) x offset/time variants: refused only if C11's criterion refuses, accepted ones compared at their transitions of 2023 and 2024. non-trivial = searches with 0 or >=2 valid instants + leap-second (right/) instants",
             "samples": rep.samples or [{"note": "no sample"}], "exhaustive": True,
             "corpus_files": n_all, "distinct_files": {"fat_posix": len(fat_posix_d), "fat_right": len(fat_right_d), "slim": len(slim_d)},
             "counts": rep.counts, "excluded_by_written_rule": rep.excluded,
